@@ -110,6 +110,11 @@ func genC05(o *hx.Out, tier string) {
 	}
 	rec(nil)
 
+	// a completely parsed, then refused frame followed by valid ones on the same reader
+	for _, st := range refusedThenAccepted(r, d, drw, 40) {
+		emit("refused then accepted", one(st), true)
+		emit("refused then accepted", splitRandom(r, st), true)
+	}
 	// structured streams: valid / truncated / corrupted frames with noise
 	key := frame.NewV2Key([]byte("k"))
 	ns := 150
